@@ -56,6 +56,7 @@ func c18Families() []c18Family {
 			c08Run(c, rep, c08Case{Hosts: 3, Conns: 1, Comp: "", PrepComp: "", Ver: 4, PrepVer: 4, Kind: KExecute, Reprep: "ok", LateHost: true, Idem: true})
 			c08Run(c, rep, c08Case{Hosts: 2, Conns: 1, Forget: []int{1}, Ver: 4, PrepVer: 4, Kind: KExecute, Reprep: "drop", Idem: true})
 		}},
+		{"C08/mixed-version-reprepare", func(c *Ctx, rep int) { mixedVersionReprepare(c, rep) }},
 		{"C14/bursts", func(c *Ctx, rep int) {
 			for k := 0; k < 4; k++ {
 				c14History(c, rep*4+k)
@@ -162,7 +163,16 @@ func topologyUnderTraffic(c *Ctx, rep int) {
 					return
 				case <-time.After(time.Duration(1+i%3) * time.Millisecond):
 				}
-				_, _ = cl.CallF(BuildRequest(primitive.ProtocolVersion4, int16(k%20000), KQuery, true, NewTok(), primitive.ConsistencyLevelOne), 5*time.Second)
+				switch (k + i) % 8 {
+				case 1:
+					_, _ = cl.Call(int16(k%20000), &message.Options{}, 5*time.Second)
+				case 3:
+					_, _ = cl.Call(int16(k%20000), &message.Query{Query: []string{"SELECT * FROM system.local", "SELECT * FROM system.peers"}[k%2], Options: &message.QueryOptions{Consistency: primitive.ConsistencyLevelOne}}, 5*time.Second)
+				case 5:
+					_, _ = cl.Call(int16(k%20000), &message.Prepare{Query: "SELECT key, rpc_address FROM system.local"}, 5*time.Second)
+				default:
+					_, _ = cl.CallF(BuildRequest(primitive.ProtocolVersion4, int16(k%20000), KQuery, true, NewTok(), primitive.ConsistencyLevelOne), 5*time.Second)
+				}
 				atomic.AddInt64(&sent, 1)
 			}
 		}(i, cl)
@@ -188,11 +198,22 @@ func topologyUnderTraffic(c *Ctx, rep int) {
 		time.Sleep(60 * time.Millisecond)
 	}
 	// removals of hosts that are not last in the sorted list, additions in between
+	// ... and the control connection is lost and re-established between the steps (its node data are read again)
+	ctlLoss := func() {
+		for _, x := range bed.Cluster.EstablishedControlConns() {
+			x.Kill(false)
+		}
+		waitFor(func() bool { return len(bed.Cluster.EstablishedControlConns()) >= 1 }, 5*time.Second)
+		time.Sleep(20 * time.Millisecond)
+	}
 	step(2, false)
+	ctlLoss()
 	step(4, true)
 	step(3, false)
+	ctlLoss()
 	step(2, true)
 	step(3, true)
+	ctlLoss()
 	step(2, false)
 	close(stop)
 	wg.Wait()
@@ -279,4 +300,64 @@ func hostileUnderTraffic(c *Ctx, rep int) {
 	r.Eval(len(inputs) + int(good))
 	r.Obs("hostile_inputs_under_traffic", len(inputs))
 	r.Obs("good_requests_beside_hostile_inputs", int(good))
+}
+
+// mixedVersionReprepare: clients of protocol versions 3, 4 and 5 (their sessions are separate, the prepared cache is one)
+// have prepared the same statements; the hosts forget them again and again while all clients execute, so re-prepares of one
+// cached PREPARE run for several versions and on several backend connections at once.
+func mixedVersionReprepare(c *Ctx, rep int) {
+	r := c.R
+	c.Step("mixed-version-reprepare rep=%d", rep)
+	bed, err := px.NewBed(px.BedConfig{Hosts: 2, NumConns: 1 + rep%2, Keyspaces: []string{"ks1"}, MaxVersion: primitive.ProtocolVersion5, ReconnectBase: time.Millisecond, ReconnectMax: 3 * time.Millisecond})
+	if err != nil {
+		r.Inconc("mixed-version-reprepare: cannot start bed: " + err.Error())
+		return
+	}
+	defer bed.Close()
+	bed.OnHook(nil)
+	var clients []*rawcql.Client
+	for i, v := range []primitive.ProtocolVersion{3, 4, 5, 4, 3, 4} {
+		cl, err := bed.ReadyClient(v, []string{"", "lz4"}[i%2])
+		if err != nil {
+			r.Inconc("mixed-version-reprepare: handshake: " + err.Error())
+			return
+		}
+		defer cl.Close()
+		if err := PrepareStandard(bed, cl, true); err != nil {
+			r.Inconc("mixed-version-reprepare: prepare: " + err.Error())
+			return
+		}
+		clients = append(clients, cl)
+	}
+	stop := make(chan struct{})
+	var bg sync.WaitGroup
+	bg.Add(1)
+	go func() {
+		defer bg.Done()
+		for i := 0; ; i++ {
+			select {
+			case <-stop:
+				return
+			case <-time.After(2 * time.Millisecond):
+				bed.Cluster.Hosts[i%2].Forget()
+			}
+		}
+	}()
+	var wg sync.WaitGroup
+	var sent int64
+	for ci, cl := range clients {
+		wg.Add(1)
+		go func(ci int, cl *rawcql.Client) {
+			defer wg.Done()
+			for k := 0; k < 150; k++ {
+				_, _ = cl.CallF(BuildRequest(cl.Version, int16(k+1), KExecute, k%2 == 0, NewTok(), primitive.ConsistencyLevelOne), 5*time.Second)
+				atomic.AddInt64(&sent, 1)
+			}
+		}(ci, cl)
+	}
+	wg.Wait()
+	close(stop)
+	bg.Wait()
+	r.Eval(int(sent))
+	r.Obs("mixed_version_reprepare_requests", int(sent))
 }
